@@ -104,23 +104,49 @@ Fixpoint subseqZ (a b : list Z) : bool :=
 Fixpoint posZ (x : Z) (l : list Z) : nat :=
   match l with [] => O | y :: l' => if x =? y then O else S (posZ x l') end.
 
-(* out = pre ++ live at split point j: the live part is a subsequence of the published ids, and
-   every id of the replayed part was published before every id of the live part *)
-Definition split_ok (ids out : list Z) (j : nat) : bool :=
+(* kind of the published packet with id [x] (-1 when there is none) *)
+Definition kind_of (pkts : list pkt) (x : Z) : Z :=
+  match find (fun p => p_id p =? x) pkts with Some p => p_kind p | None => -1 end.
+(* drop one leading id whose packet has kind [k] *)
+Definition strip_kind (pkts : list pkt) (k : Z) (l : list Z) : list Z :=
+  match l with
+  | [] => []
+  | x :: l' => if kind_of pkts x =? k then l' else l
+  end.
+Definition mediaZ (k : Z) : bool := negb (k =? 0) && negb (k =? 3) && negb (k =? 4) && negb (k =? 5).
+(* the GOP part of a join replay: only with the GOP cache on; starts with a key-frame start, goes
+   on with video packets none of which starts a key frame, in published order *)
+Definition gop_ok (pkts : list pkt) (gopon : bool) (ids g : list Z) : bool :=
+  match g with
+  | [] => true
+  | x :: g' =>
+      gopon && (kind_of pkts x =? 2) &&
+      forallb (fun y => mediaZ (kind_of pkts y) && negb (kind_of pkts y =? 2)) g' &&
+      subseqZ g ids
+  end.
+(* a (partly delivered) join replay: [VPS] [SPS] [PPS] then the GOP part *)
+Definition replay_ok (pkts : list pkt) (gopon : bool) (ids pre : list Z) : bool :=
+  gop_ok pkts gopon ids (strip_kind pkts 4 (strip_kind pkts 3 (strip_kind pkts 5 pre))).
+
+(* out = pre ++ live at split point j: the replayed part has the shape of a join replay, the live
+   part is a subsequence of the published ids, and every id of the replayed part was published
+   before every id of the live part *)
+Definition split_ok (pkts : list pkt) (gopon : bool) (ids out : list Z) (j : nat) : bool :=
   let pre := firstn j out in
   let live := skipn j out in
+  replay_ok pkts gopon ids pre &&
   subseqZ live ids &&
   forallb (fun x => forallb (fun y => (posZ x ids <? posZ y ids)%nat) live) pre.
 
-Definition ok_stream (ids out : list Z) : bool :=
+Definition ok_stream (pkts : list pkt) (gopon : bool) (ids out : list Z) : bool :=
   nodupZ out && forallb (fun x => memZ x ids) out &&
-  existsb (split_ok ids out) (seq 0 (S (length out))).
+  existsb (split_ok pkts gopon ids out) (seq 0 (S (length out))).
 
 Definition ok_C01 (c : lcase) (o : obs) : bool :=
   let ids := map p_id (l_pkts c) in
   Nat.eqb (length (o_cons o)) (l_n c) &&
   (if nodupZ ids
-   then forallb (fun k => o_intact k && ok_stream ids (o_out k)) (o_cons o)
+   then forallb (fun k => o_intact k && ok_stream (l_pkts c) (l_gop c) ids (o_out k)) (o_cons o)
    else true).
 
 (* ---------- C04 ---------- *)
